@@ -8,6 +8,9 @@ SHARED = {
     "HKernel": ["C01", "C02", "C08", "C09", "C17"],
     "Routes": ["C02", "C03", "C04", "C07", "C13"],
     "Sched": ["C10"],
+    "IndexWalk": ["C03", "C04", "C15"],
+    "Finite": ["C01", "C02"],
+    "FlatSteps": ["C01", "C08", "C15"],
 }
 
 
